@@ -1088,6 +1088,10 @@ func c08Atomic(c *Ctx) {
 		}
 		if k, n := storeOp(c, ci); k == "write" {
 			muts = append(muts, ci)
+		} else if sig := f.Type().(*types.Signature); sig.Recv() != nil && strings.HasSuffix(sig.Recv().Type().String(), "rdb.RDB") && (f.Name() == "Add" || f.Name() == "Del") {
+			// the store's own single-value read-modify-write operations are writes too: a batch applied through them
+			// (seed c15r4i: a "fast path" for small batches) is several independent writes, not one atomic step
+			muts = append(muts, ci)
 		} else if n == "GetMulti" {
 			getm, _ = ci.(*ssa.Call)
 		}
